@@ -694,6 +694,7 @@ pub fn run(tier: Tier) -> Report {
     unmerged_histories(&rep, tier, &ops);
     start_code_sweep(&rep, tier);
     source_fault_sweep(&rep, tier);
+    type_width_sweep(&rep);
 
     rep.set_rule(
         "BFS to fixpoint over the reader's exact state (bytes pulled, buffer length, bit offset, grown?, and the ring buffer's physical layout: capacity and first-slice length) for every source; every operation of the alphabet applied in every state, every step compared with a bit-vector model, a drain probe at every new state; \
@@ -931,6 +932,133 @@ impl Read for FaultSrc<'_> {
 /// (every k) reports `Interrupted` (to be retried transparently) or `WouldBlock` (the operation may
 /// fail, must consume nothing, and succeeds when repeated) - and with sources that deliver one byte
 /// per call. Afterwards every remaining bit is drained and compared.
+/// Every result type the generic reads accept (unsigned and signed, 8 to 128 bits, pointer-sized)
+/// x every width 0..=BITS x every bit phase x four sources: unsigned reads deliver the field
+/// zero-extended (for a signed type at full width: the bit pattern), signed reads sign-extend it,
+/// peeks do not move, reads move by exactly the width. Wider-than-type requests, whatever they
+/// answer, must not consume anything when they fail.
+fn type_width_sweep(rep: &Report) {
+    let sources: Vec<Vec<u8>> = vec![
+        vec![0xFF; 24],
+        (0..24u32).map(|i| (i.wrapping_mul(0x9D) ^ 0xA5) as u8).collect(),
+        std::iter::once(0x80u8).chain(std::iter::repeat(0x00).take(23)).collect(),
+        std::iter::once(0x7Fu8).chain((0..23u32).map(|i| (0xC3u32.wrapping_mul(i + 1)) as u8)).collect(),
+    ];
+    let n_cases = std::sync::atomic::AtomicU64::new(0);
+    macro_rules! sweep {
+        ($t:ty, $u:ty, $name:expr) => {{
+            let bits_t = <$u>::BITS as usize;
+            for src in &sources {
+                let all = bits_of(src);
+                for phase in 0..8usize {
+                    for n in 0..=bits_t + 2 {
+                        n_cases.fetch_add(1, std::sync::atomic::Ordering::Relaxed);
+                        let field: u128 = all[phase..phase + n.min(128)].iter().fold(0u128, |a, &b| (a << 1) | b as u128);
+                        let mask_t: u128 = if bits_t == 128 { u128::MAX } else { (1u128 << bits_t) - 1 };
+                        let fail = |what: String| {
+                            rep.violation_lazy(&format!("C14/generic-read-by-result-type[{}]", $name), || {
+                                (format!("source {} after skipping {phase} bits, width {n}, result type {}: {what}", hex(src), $name), json!({"kind": "reader-type", "source": hex(src), "phase": phase, "width": n, "type": $name}))
+                            });
+                        };
+                        let fresh = || {
+                            let mut rd = H263Reader::from_source(&src[..]);
+                            rd.skip_bits(phase as u32).expect("skip");
+                            rd
+                        };
+                        let next_byte = |k: usize| -> u64 { all[phase + k..phase + k + 8].iter().fold(0u64, |a, &b| (a << 1) | b as u64) };
+                        // unsigned
+                        let mut rd = fresh();
+                        let pk = rd.peek_bits::<$t>(n as u32);
+                        let pk2 = rd.peek_bits::<$t>(n as u32);
+                        let r = rd.read_bits::<$t>(n as u32);
+                        if n <= bits_t {
+                            match (&pk, &pk2, &r) {
+                                (Ok(a), Ok(b), Ok(c)) => {
+                                    let (a, b, c) = (*a as $u as u128, *b as $u as u128, *c as $u as u128);
+                                    if a != field || b != field || c != field {
+                                        fail(format!("peek, peek, read deliver {a:#x}, {b:#x}, {c:#x}; the field is {field:#x}"));
+                                        continue;
+                                    }
+                                    match rd.read_bits::<u8>(8) {
+                                        Ok(v) if v as u64 == next_byte(n) => {}
+                                        other => {
+                                            fail(format!("after the read the next eight bits come out as {other:?}, the source has {:#x} there", next_byte(n)));
+                                            continue;
+                                        }
+                                    }
+                                }
+                                _ => {
+                                    fail(format!("peek, peek, read answer {:?}, {:?}, {:?} although the bits are there", pk.as_ref().map(|v| *v as $u as u128), pk2.as_ref().map(|v| *v as $u as u128), r.as_ref().map(|v| *v as $u as u128)));
+                                    continue;
+                                }
+                            }
+                        } else if r.is_err() {
+                            match rd.read_bits::<u8>(8) {
+                                Ok(v) if v as u64 == next_byte(0) => {}
+                                other => {
+                                    fail(format!("a refused over-wide read consumed input: the next eight bits come out as {other:?}"));
+                                    continue;
+                                }
+                            }
+                        }
+                        // signed (a signed read of zero bits has no two's-complement meaning: excluded, as
+                        // in the operation alphabet)
+                        if n == 0 {
+                            continue;
+                        }
+                        let mut rd = fresh();
+                        let pk = rd.peek_signed_bits::<$t>(n as u32);
+                        let r = rd.read_signed_bits::<$t>(n as u32);
+                        if n <= bits_t {
+                            let want = if n > 0 && (field >> (n - 1)) & 1 == 1 { (field | !((1u128 << (n - 1) << 1).wrapping_sub(1))) & mask_t } else { field };
+                            match (&pk, &r) {
+                                (Ok(a), Ok(c)) => {
+                                    let (a, c) = (*a as $u as u128, *c as $u as u128);
+                                    if a != want || c != want {
+                                        fail(format!("signed peek and read deliver {a:#x}, {c:#x}; the sign-extended field is {want:#x}"));
+                                        continue;
+                                    }
+                                    match rd.read_bits::<u8>(8) {
+                                        Ok(v) if v as u64 == next_byte(n) => {}
+                                        other => {
+                                            fail(format!("after the signed read the next eight bits come out as {other:?}, the source has {:#x} there", next_byte(n)));
+                                            continue;
+                                        }
+                                    }
+                                }
+                                _ => {
+                                    fail(format!("signed peek and read answer {:?}, {:?} although the bits are there", pk.as_ref().map(|v| *v as $u as u128), r.as_ref().map(|v| *v as $u as u128)));
+                                    continue;
+                                }
+                            }
+                        } else if r.is_err() {
+                            match rd.read_bits::<u8>(8) {
+                                Ok(v) if v as u64 == next_byte(0) => {}
+                                other => fail(format!("a refused over-wide signed read consumed input: the next eight bits come out as {other:?}")),
+                            }
+                        }
+                    }
+                }
+            }
+        }};
+    }
+    sweep!(u8, u8, "u8");
+    sweep!(u16, u16, "u16");
+    sweep!(u32, u32, "u32");
+    sweep!(u64, u64, "u64");
+    sweep!(u128, u128, "u128");
+    sweep!(usize, usize, "usize");
+    sweep!(i16, u16, "i16");
+    sweep!(i32, u32, "i32");
+    sweep!(i64, u64, "i64");
+    sweep!(i128, u128, "i128");
+    sweep!(isize, usize, "isize");
+    let n = n_cases.into_inner();
+    rep.add_states(n);
+    rep.add_transitions(7 * n);
+    rep.extra("result_type_x_width_x_phase_cases", json!(n));
+}
+
 fn source_fault_sweep(rep: &Report, tier: Tier) {
     let prims = [Prim::Read32(1), Prim::Read32(9), Prim::Read32(17), Prim::Read32(32), Prim::Peek32(25), Prim::Skip(13), Prim::Signed16(11), Prim::ReadU8, Prim::Sc(false), Prim::Sc(true), Prim::Vlc(0), Prim::Umv];
     let srcs: Vec<Vec<u8>> = vec![
@@ -1157,6 +1285,38 @@ fn long_range_sweep(rep: &Report, tier: Tier) {
 }
 
 pub fn replay(case: &serde_json::Value) {
+    if case["kind"] == "reader-type" {
+        let data = crate::bits::unhex(case["source"].as_str().unwrap_or(""));
+        let (phase, n) = (case["phase"].as_u64().unwrap_or(0) as u32, case["width"].as_u64().unwrap_or(0) as u32);
+        let ty = case["type"].as_str().unwrap_or("u32").to_string();
+        macro_rules! show {
+            ($t:ty, $u:ty) => {{
+                let mut rd = H263Reader::from_source(&data[..]);
+                let _ = rd.skip_bits(phase);
+                let pk = rd.peek_bits::<$t>(n).map(|v| format!("{:#x}", v as $u));
+                let r = rd.read_bits::<$t>(n).map(|v| format!("{:#x}", v as $u));
+                let nx = rd.read_bits::<u8>(8);
+                let mut rd = H263Reader::from_source(&data[..]);
+                let _ = rd.skip_bits(phase);
+                let sg = rd.read_signed_bits::<$t>(n).map(|v| format!("{:#x}", v as $u));
+                println!("source {} skip_bits({phase}); peek_bits::<{ty}>({n}) -> {pk:?}; read_bits::<{ty}>({n}) -> {r:?}; next byte -> {nx:?}; fresh reader: read_signed_bits::<{ty}>({n}) -> {sg:?}", hex(&data));
+            }};
+        }
+        match ty.as_str() {
+            "u8" => show!(u8, u8),
+            "u16" => show!(u16, u16),
+            "u64" => show!(u64, u64),
+            "u128" => show!(u128, u128),
+            "usize" => show!(usize, usize),
+            "i16" => show!(i16, u16),
+            "i32" => show!(i32, u32),
+            "i64" => show!(i64, u64),
+            "i128" => show!(i128, u128),
+            "isize" => show!(isize, usize),
+            _ => show!(u32, u32),
+        }
+        return;
+    }
     if case["kind"] == "reader-sc" {
         let data = crate::bits::unhex(case["source"].as_str().unwrap_or(""));
         let (k, s, ie) = (case["look_ahead_bits"].as_u64().unwrap_or(0) as u32, case["skip"].as_u64().unwrap_or(0) as u32, case["in_error"].as_bool().unwrap_or(true));
